@@ -3,6 +3,10 @@
 import json, subprocess
 
 CHECKS = {
+ "C18": dict(level="exploration", design="§3 C18",
+   technique="exhaustive enumeration of candidate subsets x repetition counts x context states of the real disruption.SimulateScheduling, with before/after digests of API, cluster cache and provider catalog",
+   text="Four disruption worlds (mixed nodes with host-port / deletion-cost pods and pending pods on a catalog that is deliberately not in price order; deleting + uninitialized nodes; reserved offerings with the gate on; two pools with PDB / do-not-disrupt pods) x every subset of size <=3 of the candidates returned by the real GetCandidates x 1..2 (quick) / 1..3 (thorough) consecutive SimulateScheduling calls x {normal, already-cancelled, 1 ns deadline} contexts, plus one Provisioner.Schedule pass per world. The digest of all API objects (incl. resourceVersions), of the cluster cache through exported accessors (usage, host-port / volume-limit probes, deletion marks, nominations, pod bookkeeping, consolidation state) and of the provider catalog INCLUDING slice order, availability and reservation counts must be identical before and after, and the call log must contain no write. For the provisioning pass only nominations may differ.",
+   note="State is observed through exported accessors only; real-time timeouts inside the scheduler are not reached."),
  "C05": dict(level="exploration", design="§3 C05",
    technique="exhaustive enumeration of budget lists x instants x pool sizes against an independent budget oracle (arithmetic) and of pool compositions x budget lists x validation-delay events through the real disruption controller over consecutive rounds (system)",
    text="Arithmetic: every budget from the alphabet (7 node values x 6 reasons variants incl. the empty list x 8 schedule/duration variants incl. unparsable and duration-only), alone and paired with a second budget, at the six instants around each window edge, for N in 0..6 (quick) / 0..12 (thorough) and the three reasons, through MustGetAllowedDisruptions against an oracle with its own cron matcher. System: every pool composition of 2..4 (quick) / 2..5 (thorough) nodes over 8 node states x 11 budget lists x {no event, a healthy node turning NotReady / being deleted during the 15 s validation delay} through the real disruption controller (all methods) for 2/3 consecutive rounds with commands left in flight; per round and reason, newly selected candidates + nodes not ready or being deleted never exceed the oracle's allowance (flagged only if exceeded under both admissible denominators).",
